@@ -127,7 +127,16 @@ def c05(ctx, res):
                         "decoder-side clause read semantically: numeric references such as &#x41; come back as the character they denote"]
 
 
+def c06(ctx, res):
+    ctx.gen_replay(res, "json", "MC_C06.tla", "MC_C06_quick.cfg" if ctx.quick else "MC_C06_thorough.cfg")
+    ctx.gen_replay(res, "jsonin", "MC_C06.tla", "MC_C06_accept.cfg", workers=4)
+    res.assumptions += ["encoding/json is the oracle for validity and for the value of the first JSON value of an input",
+                        "placeholders ^ (U+0001) and $ (newline) of the specification's alphabet are substituted on the Go side",
+                        "JsonUseNumber: a fixed catalogue of numerals compared textually"]
+
+
 PROPS = {
+    "C06": c06,
     "C05": c05,
     "C04": c04,
     "C02": c02,
